@@ -140,3 +140,45 @@ def moveWhileBorrowed (g : Graph) : Graph × List Diag :=
   (st.g, st.diags)
 
 end Pxv.CG
+
+namespace Pxv.CG
+
+/-! ### the control skeleton of `complex_borrow_check` (borrow_checker/complex.rs)
+
+The outer `'fixed_point` loop alternates between parking blocked nodes and cloning one of their inputs. What a round of
+the inner `'visiting` loop does to the call graph is abstracted into what the outer loop looks at: how many nodes ended
+up parked and whether a clone was inserted. -/
+
+inductive Strat where
+  | park | clone | error
+  deriving Repr, DecidableEq
+
+/-- `strategy_on_block`, `unblocked_any_node`, `n_parked_nodes` -/
+structure Ctl where
+  strat : Strat := .park
+  flag : Bool := false
+  prev : Option Nat := none
+  deriving Repr, DecidableEq
+
+/-- the tail of one iteration of `'fixed_point`, after a visiting round that left `n` nodes parked and inserted a clone
+    iff `cloned`; `none` = `break 'fixed_point`. `resetFlag` is the repair (819c099): `unblocked_any_node` goes back to
+    `false` when the strategy returns to parking. -/
+def Ctl.next (resetFlag : Bool) (c : Ctl) (n : Nat) (cloned : Bool) : Option Ctl :=
+  let flag := c.flag || cloned
+  if n == 0 then none
+  else if c.prev == some n then
+    match c.strat with
+    | .park => some { strat := .clone, flag := flag, prev := some n }
+    | .clone =>
+      if flag then some { strat := .park, flag := (if resetFlag then false else flag), prev := some n }
+      else some { strat := .error, flag := flag, prev := some n }
+    | .error => none
+  else some { c with flag := flag, prev := some n }
+
+/-- the loop under a call graph that no longer changes: every round parks the same `n` nodes and clones nothing;
+    `some c'` = still running after `k` rounds -/
+def Ctl.stable (resetFlag : Bool) (n : Nat) : Nat → Ctl → Option Ctl
+  | 0, c => some c
+  | k + 1, c => (c.next resetFlag n false).bind (Ctl.stable resetFlag n k)
+
+end Pxv.CG
